@@ -695,6 +695,10 @@ pub mod std {
 
                 pub trait PermissionsExt: Sized {
                     fn from_mode(mode: u32) -> Self;
+
+                    fn mode(&self) -> u32;
+
+                    fn set_mode(&mut self, mode: u32);
                 }
 
                 /// st_nlink (unspecified value) and the whole-second / nanosecond parts of st_atim / st_mtim.
@@ -767,8 +771,32 @@ pub mod std {
                     #[verifier::external_body]
                     fn from_mode(mode: u32) -> (r: Self)
                         ensures
-                            r.mode() == mode as int,
+                            r.mode_bits() == mode as int,
                             r.writable() == (mode & 0o222 != 0),
+                    {
+                        unimplemented!()
+                    }
+
+                    /// The last three clauses are bit-vector facts about the returned number (proved in
+                    /// `lemma_masks_clear_write_bits`), stated here so that the usual ways of clearing the write
+                    /// bits verify without a hint.
+                    #[verifier::external_body]
+                    fn mode(&self) -> (r: u32)
+                        ensures
+                            r as int == self.mode_bits(),
+                            self.writable() == (r & 0o222 != 0),
+                            (r & !0o222u32) & 0o222 == 0,
+                            (r & 0o555u32) & 0o222 == 0,
+                            (r & 0o444u32) & 0o222 == 0,
+                    {
+                        unimplemented!()
+                    }
+
+                    #[verifier::external_body]
+                    fn set_mode(&mut self, mode: u32)
+                        ensures
+                            final(self).mode_bits() == mode as int,
+                            final(self).writable() == (mode & 0o222 != 0),
                     {
                         unimplemented!()
                     }
@@ -1002,7 +1030,7 @@ pub mod std {
         impl Permissions {
             pub uninterp spec fn writable(&self) -> bool;
 
-            pub uninterp spec fn mode(&self) -> int;
+            pub uninterp spec fn mode_bits(&self) -> int;
 
             #[verifier::external_body]
             pub fn readonly(&self) -> (r: bool)
@@ -1100,7 +1128,7 @@ pub mod std {
                     match r {
                         Ok(()) => {
                             &&& final(w).hard_faults == old(w).hard_faults
-                            &&& final(w).only_inode_changed(*old(w), self.ino(), Inode { writable: perm.writable(), mode: perm.mode(), ..old(w).inodes[self.ino()] })
+                            &&& final(w).only_inode_changed(*old(w), self.ino(), Inode { writable: perm.writable(), mode: perm.mode_bits(), ..old(w).inodes[self.ino()] })
                         },
                         Err(e) => final(w).same_fs(*old(w)) && final(w).hard_faults == old(w).hard_faults + 1,
                     },
@@ -1167,7 +1195,9 @@ pub mod std {
                             &&& final(w).hard_faults == old(w).hard_faults
                             &&& final(w).only_inode_changed(*old(w), self.ino(), Inode { synced: true, ..old(w).inodes[self.ino()] })
                         },
-                        Err(e) => final(w).same_fs(*old(w)) && final(w).hard_faults == old(w).hard_faults + 1,
+                        // a failed fsync is sticky: the kernel may drop the dirty pages and report success next time
+                        Err(e) => final(w).only_inode_changed(*old(w), self.ino(), Inode { flush_failed: true, ..old(w).inodes[self.ino()] }) && final(w).hard_faults
+                            == old(w).hard_faults + 1,
                     },
             {
                 unimplemented!()
@@ -1364,6 +1394,7 @@ pub mod std {
                 final(w).listed == old(w).listed,
                 final(w).opens == old(w).opens,
                 final(w).published == old(w).published + if r.is_ok() { 1nat } else { 0nat },
+                r.is_ok() ==> final(w).pub_listed == final(w).listed,
                 match r {
                     Ok(()) => {
                         &&& old(w).files.contains_key(pv(from))
@@ -1403,6 +1434,7 @@ pub mod std {
                 final(w).listed == old(w).listed,
                 final(w).opens == old(w).opens,
                 final(w).published == old(w).published + if r.is_ok() { 1nat } else { 0nat },
+                r.is_ok() ==> final(w).pub_listed == final(w).listed,
                 match r {
                     Ok(()) => {
                         &&& old(w).files.contains_key(pv(from))
@@ -1447,6 +1479,67 @@ pub mod std {
                 forall|i: InodeId| #[trigger] final(w).inodes.contains_key(i) ==> old(w).inodes.contains_key(i) || (final(w).files.contains_key(pv(to)) && i == final(w).files[pv(to)]),
                 r.is_ok() ==> old(w).files.contains_key(pv(from)) && final(w).files.contains_key(pv(to))
                     && final(w).inodes[final(w).files[pv(to)]].content == old(w).inode_at(pv(from)).content,
+        {
+            unimplemented!()
+        }
+
+        /// mkdir(path): one level, NOT idempotent.  Directory creation races with other participants by design
+        /// (cache and shard directories are created lazily by whoever needs them first): `AlreadyExists` is the
+        /// ordinary outcome of losing that race, so it is never a fault and nothing about the state follows from it.
+        #[verifier::external_body]
+        pub fn create_dir(p: &Path, Tracked(w): Tracked<&mut World>) -> (r: std::io::Result<()>)
+            requires
+                old(w).inv(),
+                old(w).may_mkdir(pv(p)),   // @L C02 C15 C16:only-cache-directories-are-created
+            ensures
+                final(w).stepped(*old(w)),
+                final(w).inv(),
+                final(w).now == old(w).now,
+                final(w).listed == old(w).listed,
+                final(w).opens == old(w).opens,
+                final(w).published == old(w).published,
+                final(w).files == old(w).files,
+                final(w).inodes == old(w).inodes,
+                match r {
+                    Ok(()) => {
+                        &&& final(w).hard_faults == old(w).hard_faults
+                        &&& !old(w).files.contains_key(pv(p))
+                        &&& !old(w).dirs.contains(pv(p))
+                        &&& final(w).dirs == old(w).dirs.insert(pv(p))
+                    },
+                    Err(e) => {
+                        &&& final(w).dirs == old(w).dirs
+                        &&& final(w).hard_faults == old(w).hard_faults + if err_kind(e) == ::std::io::ErrorKind::AlreadyExists || absent_err(e) {
+                            0nat
+                        } else {
+                            1nat
+                        }
+                    },
+                },
+        {
+            unimplemented!()
+        }
+
+        /// rmdir(path).  PROTOCOL: the library never removes a directory.
+        #[verifier::external_body]
+        pub fn remove_dir(p: &Path, Tracked(w): Tracked<&mut World>) -> (r: std::io::Result<()>)
+            requires
+                old(w).inv(),
+                false,   // @L C17 C02 C15 C16:directories-are-never-removed
+            ensures
+                final(w).inv(),
+        {
+            unimplemented!()
+        }
+
+        /// rm -r path.  PROTOCOL: the library never removes a directory.
+        #[verifier::external_body]
+        pub fn remove_dir_all(p: &Path, Tracked(w): Tracked<&mut World>) -> (r: std::io::Result<()>)
+            requires
+                old(w).inv(),
+                false,   // @L C17 C02 C15 C16:directories-are-never-removed
+            ensures
+                final(w).inv(),
         {
             unimplemented!()
         }
